@@ -787,7 +787,7 @@ func TestC03(t *testing.T) {
 	if !shapeOK {
 		rec.Assume("table shape not readable by reflection: histories cannot be classified as migrating")
 	}
-	RunRapid(rec, "C03/history", rec.Pick(750, 30000), 0, func(t *rapid.T) {
+	RunRapid(rec, "C03/history", rec.Pick(750, 20000), 0, func(t *rapid.T) {
 		lua := true
 		if rec.Thorough() {
 			lua = rapid.IntRange(0, 3).Draw(t, "alsoAsLua") == 0
